@@ -266,8 +266,18 @@ def gen_auto_line_or_scatter(rng, kind):
     if rng.random() < 0.4:
         opts["colors"] = True
         opts["colormap"] = rng.choice(["viridis", "plasma"])
-    return {"kind": kind, "auto": True, "auto_transposed": rng.random() < 0.5, "ds": raw, "x": "x", "y": "a", "z": "z",
+    case = {"kind": kind, "auto": True, "auto_transposed": rng.random() < 0.5, "ds": raw, "x": "x", "y": "a", "z": "z",
             "c": None, "y_err": None, "x_err": None, "row": None, "col": None, "opts": opts}
+    if rng.random() < 0.3 and raw["dims"]["x"] >= 2:
+        # a TWO-dimensional x: every series has its own x values, x[i] goes with y_z[i]; also on a square layout
+        # (as many points as series), where the sizes say nothing about the orientation
+        if rng.random() < 0.5:
+            raw["dims"]["z"] = raw["dims"]["x"]
+            raw["coords"]["z"] = {"kind": "int", "ids": [4 * i for i in range(raw["dims"]["z"])]}
+            raw["vars"]["a"] = make_var(rng, ids, raw, ["z", "x"], rng.choice([0, 0.2]), rng.choice([0, 0.05]))
+        raw["vars"]["xa"] = make_var(rng, ids, raw, ["z", "x"], 0.0, 0.0)
+        case.update({"x": "xa", "auto_x2d": True, "auto_transposed": False})
+    return case
 
 
 def gen_histogram(rng, tier, auto=False):
